@@ -28,7 +28,7 @@ Definition tree_of (W : wsys) (key : string) : option dtree :=
                                                (snd (snd pe)) None
                            end) (w_procs W) None.
 
-Fixpoint script (W : wsys) (st : gstate) (steps : list (string * value * list string)) (k : nat) (sched : list string) : string :=
+Fixpoint script (cands : list (list nat)) (W : wsys) (st : gstate) (steps : list (string * value * list string)) (k : nat) (sched : list string) {struct steps} : string :=
   match steps with
   | [] => "#@#SCRIPTOK " ++ sep "," (rev sched) ++ " #@#STATE " ++ coq_gstate st ++ " #@#END"
   | (key, self, needles) :: more =>
@@ -46,9 +46,9 @@ Fixpoint script (W : wsys) (st : gstate) (steps : list (string * value * list st
                                                 if forallb (fun n => contains n txt) needles then Some (ks, apply_commit st self g l) else None
                                             | _ => None
                                             end
-                                  end) vectors4 None in
+                                  end) cands None in
           match hit with
-          | Some (ks, st') => script W st' more (S k) ((key ++ "/" ++ show_value self ++ "/" ++ sep "." (map nat_str ks)) :: sched)
+          | Some (ks, st') => script cands W st' more (S k) ((key ++ "/" ++ show_value self ++ "/" ++ sep "." (map nat_str ks)) :: sched)
           | None => "#@#SCRIPTFAIL step " ++ nat_str k ++ " " ++ key ++ "/" ++ show_value self ++ " pc=" ++ pcnow ++
                     " ; outcome for choices 0: " ++ show_outcome (run (w_dtla W) EVAL_FUEL t r [0;0;0;0]%nat) ++
                     " ; for 1: " ++ show_outcome (run (w_dtla W) EVAL_FUEL t r [1;1;1;1]%nat) ++
